@@ -1880,7 +1880,10 @@ static void xstream_init_main_sched(ABTI_xstream *p_xstream,
                                     ABTI_sched *p_sched)
 {
     ABTI_ASSERT(p_xstream->p_main_sched == NULL);
-    /* Set the scheduler as a main scheduler */
+    /* Set the scheduler as a main scheduler.  A user-owned scheduler that
+     * served another execution stream before must not bring along the requests
+     * (finish, replace) that ended that use. */
+    ABTD_atomic_relaxed_store_uint32(&p_sched->request, 0);
     p_sched->used = ABTI_SCHED_MAIN;
     /* Set the scheduler */
     p_xstream->p_main_sched = p_sched;
@@ -1894,6 +1897,7 @@ static int xstream_update_main_sched(ABTI_global *p_global,
     ABTI_sched *p_main_sched = p_xstream->p_main_sched;
     if (p_main_sched == NULL) {
         /* Set the scheduler as a main scheduler */
+        ABTD_atomic_relaxed_store_uint32(&p_sched->request, 0);
         p_sched->used = ABTI_SCHED_MAIN;
         /* Set the scheduler */
         p_xstream->p_main_sched = p_sched;
@@ -1911,6 +1915,7 @@ static int xstream_update_main_sched(ABTI_global *p_global,
         ABTI_CHECK_ERROR(abt_errno);
 
         /* Set the scheduler as a main scheduler */
+        ABTD_atomic_relaxed_store_uint32(&p_sched->request, 0);
         p_sched->used = ABTI_SCHED_MAIN;
         p_sched->p_ythread = p_main_sched->p_ythread;
         p_main_sched->p_ythread = NULL;
